@@ -182,9 +182,12 @@ def _classify(ob, msgs):
                                        'native: %s' % (what[:200], args,
                                                        raised[:200]))
             if r.get('ok'):
-                return HARNESS_ERROR, ('counterexample (%s) [%s] did not '
-                                       'reproduce natively: %r'
-                                       % (args, what[:120], r))
+                # a model that does not replay against the real code is an
+                # artefact of the symbolic library models, not a violation:
+                # the obligation is left undecided (never discharged)
+                return INCONCLUSIVE, ('SPURIOUS: counterexample (%s) [%s] '
+                                      'did not reproduce natively: %r'
+                                      % (args, what[:120], r))
             return VIOLATION, '%s | args: %s | native: %s' % (
                 what[:200], args, raised or r.get('returned'))
     texts = ' / '.join(m for _, m in msgs)
